@@ -27,7 +27,7 @@ func init() {
 		Level: "exploration",
 		Rule: "idx%4 in {0,1}: a well-formed protected DL NAS TRANSPORT{PDU SESSION ESTABLISHMENT ACCEPT} (QoS rules 0..1500 octets, session AMBR, a subset of the optional IEs of table 8.3.2.1.1 in table order, PDU address IPv4 with corner values) " +
 			"and a well-formed PDUSessionResourceSetupRequestTransfer (aggregate bit rates over {0,1,2^8k+-1,4*10^12}, TEID / IPv4 corners, optional trailing IEs, 1..64 QoS flows): extracted values must equal the encoded ones; " +
-			"idx%4==2: mutations of such inputs (truncation, bit flips, overwrites, splices); idx%4==3: random strings of 0..4096 octets - the call must return or panic, never spin. distinct = hash(inputs); non-trivial = all",
+			"idx%4==2: mutations of such inputs (truncation, bit flips, overwrites, splices); idx%4==3: random strings of 0..4096 octets - the call must return or panic, never spin. Aimed values: bit rates whose octets read as the header of a following IE, NAS-MACs that read as a message header, contents imitating the PDU address element. distinct = hash(inputs); non-trivial = all",
 		Assumptions: []string{
 			"IPv4 only; IEs of the transfer in ASN.1 order (TS 38.413 requires it), IEs of the Accept in table order",
 			"on arbitrary input a panic counts as termination (the property only demands termination)",
